@@ -158,6 +158,9 @@ def ensure_build(verbose=False):
 # ----------------------------------------------------------------------------
 # model execution
 # ----------------------------------------------------------------------------
+MODEL_TIMEOUT = 1500  # seconds per driver process; the extracted model is total, so this only bounds blow-ups of generated sizes
+
+
 def run_model_ocaml(cases, chunk=200):
     """cases: list of [model_id, payload]; returns list of results (one per case)"""
     drv = os.path.join(OCAML, "driver")
@@ -179,7 +182,11 @@ def run_model_ocaml(cases, chunk=200):
     import threading
 
     def feed(idx, p, sh):
-        o, _ = p.communicate("\n".join(sh) + "\n")
+        try:
+            o, _ = p.communicate("\n".join(sh) + "\n", timeout=MODEL_TIMEOUT)
+        except subprocess.TimeoutExpired:
+            p.kill()
+            o = ""
         outs[idx] = o
 
     ths = [threading.Thread(target=feed, args=(i, p, sh)) for i, (p, sh) in enumerate(procs)]
